@@ -256,6 +256,14 @@ pub struct SplitReader {
     pub reads: usize,
     /// a scheduling point owned by the harness: what happens when read call number `.0` is made
     pub gate: Option<(usize, Gate)>,
+    /// stream position of the first byte: the reader behaves like a window of a much larger
+    /// (sparse) stream, so positions reported by `stream_position` / accepted by `seek` are
+    /// `base + offset`. A decoder must not care where in a stream its message starts.
+    pub base: u64,
+    /// read calls (1-based) answered with `ErrorKind::Interrupted` before any data is returned:
+    /// the retryable transient error of the `Read` contract (EINTR on files, pipes, sockets)
+    pub interrupts: Vec<usize>,
+    pub interrupt_every_other: bool,
 }
 
 /// What a gated reader does at its scheduling point.
@@ -268,10 +276,10 @@ pub enum Gate {
 
 impl SplitReader {
     pub fn new(data: Vec<u8>, boundaries: Vec<usize>, max_chunk: usize) -> Self {
-        SplitReader { data, pos: 0, boundaries, max_chunk: max_chunk.max(1), reads: 0, gate: None }
+        SplitReader { data, pos: 0, boundaries, max_chunk: max_chunk.max(1), reads: 0, gate: None, base: 0, interrupts: vec![], interrupt_every_other: false }
     }
     pub fn gated(data: Vec<u8>, at_read: usize, gate: Gate) -> Self {
-        SplitReader { data, pos: 0, boundaries: vec![], max_chunk: usize::MAX, reads: 0, gate: Some((at_read, gate)) }
+        SplitReader { data, pos: 0, boundaries: vec![], max_chunk: usize::MAX, reads: 0, gate: Some((at_read, gate)), base: 0, interrupts: vec![], interrupt_every_other: false }
     }
 }
 
@@ -291,6 +299,9 @@ impl Read for SplitReader {
         if self.reads > 64 + 16 * self.data.len() {
             return Err(std::io::Error::other("fuel exhausted"));
         }
+        if self.interrupts.contains(&self.reads) || (self.interrupt_every_other && self.reads % 2 == 1) {
+            return Err(std::io::Error::new(std::io::ErrorKind::Interrupted, "harness: interrupted, retry"));
+        }
         if self.pos >= self.data.len() || buf.is_empty() {
             return Ok(0);
         }
@@ -307,15 +318,15 @@ impl Read for SplitReader {
 impl Seek for SplitReader {
     fn seek(&mut self, pos: SeekFrom) -> std::io::Result<u64> {
         let new = match pos {
-            SeekFrom::Start(p) => p as i128,
+            SeekFrom::Start(p) => p as i128 - self.base as i128,
             SeekFrom::Current(d) => self.pos as i128 + d as i128,
             SeekFrom::End(d) => self.data.len() as i128 + d as i128,
         };
         if new < 0 {
-            return Err(std::io::Error::new(std::io::ErrorKind::InvalidInput, "negative seek"));
+            return Err(std::io::Error::new(std::io::ErrorKind::InvalidInput, "seek before the start of the window"));
         }
-        self.pos = new as usize;
-        Ok(self.pos as u64)
+        self.pos = (new as u128).min(usize::MAX as u128 / 2) as usize;
+        Ok(self.base + self.pos as u64)
     }
 }
 
@@ -371,8 +382,69 @@ pub fn short_read_check<T: PartialEq>(
             Caught::Panic(p) => ctx.fail(&format!("short_reads:{what}:panic"), || p.clone(), || witness(&shape)),
         }
     }
+    // transient, retryable errors: one `Interrupted` before read call k for every k of the solo
+    // run (all of them up to 200, then a stride), and every other call interrupted
+    let solo_reads = {
+        let mut r = SplitReader::new(bytes.to_vec(), vec![], usize::MAX);
+        let _ = guarded(|| decode(&mut r));
+        r.reads
+    };
+    let mut ks: Vec<(Vec<usize>, bool)> = Vec::new();
+    let stride = if full || solo_reads <= 200 { 1 } else { solo_reads / 100 };
+    let mut k = 1;
+    while k <= solo_reads + 1 {
+        ks.push((vec![k], false));
+        k += if k < 100 { 1 } else { stride.max(1) };
+    }
+    ks.push((vec![], true));
+    ks.push((vec![1, 2, 3], false));
+    for (ints, every_other) in ks {
+        n += 1;
+        let r = guarded(|| {
+            let mut rd = SplitReader::new(bytes.to_vec(), vec![], if every_other { 7 } else { usize::MAX });
+            rd.interrupts = ints.clone();
+            rd.interrupt_every_other = every_other;
+            decode(&mut rd)
+        });
+        if !matches!(&r, Caught::Ret(v) if *v == base) {
+            let kind = match &r {
+                Caught::Panic(_) => "panic",
+                Caught::Ret(None) => "well_formed_input_rejected",
+                Caught::Ret(Some(_)) => "different_value",
+            };
+            ctx.fail(
+                &format!("interrupted_reads:{what}:{kind}"),
+                || format!("{what}: a reader that answers read call(s) {:?}{} with ErrorKind::Interrupted (retryable by the Read contract) changes the result of decoding {} bytes", ints, if every_other { " and every other call" } else { "" }, bytes.len()),
+                || witness(&(vec![], usize::MAX)),
+            );
+        }
+    }
+    // position of the message inside a larger stream: the same bytes behind stream positions
+    // around 2^31, 2^32 and 2^40
+    let len = bytes.len() as u64;
+    for base_pos in [1u64, (1 << 31) - 17, (1u64 << 31) + 5, (1u64 << 32) - len / 2 - 1, (1u64 << 32) - len.min(1 << 31), 1u64 << 32, (1u64 << 32) + 28, 5u64 << 32, 1u64 << 40, (1u64 << 63) - len - 9] {
+        n += 1;
+        let r = guarded(|| {
+            let mut rd = SplitReader::new(bytes.to_vec(), vec![], usize::MAX);
+            rd.base = base_pos;
+            decode(&mut rd)
+        });
+        if !matches!(&r, Caught::Ret(v) if *v == base) {
+            let kind = match &r {
+                Caught::Panic(_) => "panic",
+                Caught::Ret(None) => "well_formed_input_rejected",
+                Caught::Ret(Some(_)) => "different_value",
+            };
+            ctx.fail(
+                &format!("stream_position:{what}:{kind}"),
+                || format!("{what}: the same {} bytes decode differently when they start at stream position {base_pos} of a seekable stream instead of 0{}", bytes.len(), if let Caught::Panic(p) = &r { format!(": {p}") } else { String::new() }),
+                || witness(&(vec![], usize::MAX)),
+            );
+        }
+    }
     n
 }
+
 
 
 /// Two-actor interleavings at the reader seam (preemption bound 1, the scheduling points being the
